@@ -446,6 +446,41 @@ class Generator:
                     deref_bodies[l['body'][0] + 1] = f' let {var} = {var}__n; if {var}__n < {var}__end {{ {var}__n += 1; }} else {{ {var}__go = false; }}'
                 add_edit(l['body'][1], l['body'][1], ' }', 'RFORI')
                 applied.append(f'RFORI loop#{k}: for {var} in {"(" if rev else ""}{a_txt}..={b_txt}{").rev()" if rev else ""} -> while with the step before the body')
+            elif kind == 'RFORK':
+                # stepped half-open ranges (`Iterator::step_by` is outside the installed Verus):
+                #   `for i in (A..B).step_by(K) { BODY }` -> { let mut i__n = A; let i__end = B; let i__k = K;
+                #        while i__n < i__end INV { let i = i__n; if i__end - i__n > i__k { i__n += i__k; } else { i__n = i__end; } BODY } }
+                # A, B, K are evaluated once, in that order; the items are A, A+K, A+2K, ... below B; the step comes before BODY (so `continue`
+                # and `break` keep their meaning) and never passes B (no overflow). K == 0 makes step_by panic: K must be a positive literal.
+                k = int(rw[1])
+                fl = [l for l in fn['loops'] if inside(l['span'], span)]
+                if k >= len(fl) or fl[k]['kind'] != 'for':
+                    raise GenError(f'lost-anchor: for-loop #{k} in {u.fnpath}')
+                l = fl[k]
+                var = src[l['pat'][0]:l['pat'][1]].decode().strip()
+                itxt = src[l['iter'][0]:l['iter'][1]].decode().strip()
+                m = re.fullmatch(r'\((.*)\)\s*\.\s*step_by\(\s*([1-9][0-9]*)\s*\)', itxt, re.S)
+                if not m or not re.fullmatch(r'\w+', var):
+                    raise GenError(f'unsupported: RFORK needs `for <ident> in (A..B).step_by(<positive literal>)` in {u.fnpath}')
+                rtxt, k_txt = m.group(1).strip(), m.group(2)
+                depth, cut = 0, -1
+                for pos, ch in enumerate(rtxt):
+                    if ch in '([{':
+                        depth += 1
+                    elif ch in ')]}':
+                        depth -= 1
+                    elif depth == 0 and rtxt.startswith('..', pos) and not rtxt.startswith('..=', pos):
+                        cut = pos
+                        break
+                if cut < 0:
+                    raise GenError(f'unsupported: RFORK needs a half-open range `A..B` in {u.fnpath}')
+                a_txt, b_txt = rtxt[:cut].strip(), rtxt[cut + 2:].strip()
+                if src[l['body'][0]:l['body'][0] + 1] != b'{':
+                    raise GenError(f'unsupported: for-loop body of {u.fnpath} is not a block')
+                add_edit(l['span'][0], l['body'][0], f'{{ let mut {var}__n = {a_txt}; let {var}__end = {b_txt}; let {var}__k = {k_txt}; while {var}__n < {var}__end ', 'RFORK')
+                deref_bodies[l['body'][0] + 1] = f' let {var} = {var}__n; if {var}__end - {var}__n > {var}__k {{ {var}__n += {var}__k; }} else {{ {var}__n = {var}__end; }}'
+                add_edit(l['body'][1], l['body'][1], ' }', 'RFORK')
+                applied.append(f'RFORK loop#{k}: for {var} in ({a_txt}..{b_txt}).step_by({k_txt}) -> while with the step before the body')
             elif kind == 'RFORS':
                 # `for x in E { BODY }` over a slice / &Vec  ->  `{ let mut x__n: usize = 0; while x__n < (E).len() INV { let x = &(E)[x__n]; x__n += 1; BODY } }`
                 # (items of `for x in <slice>` are references to the elements in order; the increment comes first, so a `continue`
